@@ -17,7 +17,7 @@ local name."""
 import ast
 from ..core import walk_own, norm, is_self_attr, parent_map, AnalysisError
 from ..report import Ob, Floor
-from ..rules import plumb, twin, loops, gens, pure
+from ..rules import plumb, twin, loops, gens, pure, prio
 from ..abseval import Evaluator, Opaque
 from .. import exceptions
 from .c18 import writer_obligations
@@ -238,6 +238,7 @@ def check(ctx, tier):
     obs += [o for o in ctx.attempt(lambda c, cl: memo_obligations(c, cl)[0], ctx, "D-h", default=[]) if "|first-run-guard|" in o.key]
     from .c19 import prefix_choice_table
     obs += ctx.attempt(prefix_choice_table, ctx, "D-i", default=[])
+    obs += ctx.attempt(lambda c, cl: prio.check(c, cl)[0], ctx, "D-j", default=[])
     exceptions.apply(obs)
     return {"obs": obs, "floors": [Floor("shapes_namespace call sites", n_pl, 6), Floor("prefix insertion sites", n_g, 3), Floor("emission loops", n_l, 4)],
             "explanation": "Closedness and well-formedness clauses visible in the code: every label producer receives the configured "
